@@ -89,6 +89,7 @@ pub fn describe_end(e: &End) -> &'static str {
         End::Stop(Stop::Encoding(_)) => "end: encoding error",
         End::Stop(Stop::Unspecified) => "end: cut at output >= 2^32 (unspecified)",
         End::Stop(Stop::TooBig) => "end: cut at size cap",
+        End::Stop(Stop::InputError) => "end: input is not UTF-8",
     }
 }
 
@@ -123,7 +124,7 @@ pub fn check(c: &Case1, st: &mut Stats, cfg: &Cfg, bin: &std::path::Path, scratc
         let r = model.step(loc);
         let shown = || format!("step {} (command {} = {})", steps, loc, crate::refparse::cmd_text(&c.0.cmds.get(loc).cloned().unwrap_or_else(|| crate::refparse::RCmd::new(0, 1, 0))));
         match r {
-            Err(Stop::Exit(_)) | Err(Stop::Unspecified) | Err(Stop::TooBig) => {
+            Err(Stop::Exit(_)) | Err(Stop::Unspecified) | Err(Stop::TooBig) | Err(Stop::InputError) => {
                 // not executed in-process: the definition ends the process here / the case is cut here
                 end = End::Stop(r.unwrap_err());
                 break;
